@@ -93,6 +93,14 @@ impl Z80 {
         }
     }
 
+    /// Drops the state which belongs to the instruction stream executed so far (HALT
+    /// state, pending DD/FD prefix, EI delay). Used when CPU state is replaced from a snapshot
+    pub fn reset_transient_state(&mut self) {
+        self.halted = false;
+        self.skip_interrupt = false;
+        self.active_prefix = Prefix::None;
+    }
+
     /// Pops program counter to the stack. Exposed as a public crate interface to support
     /// 48K SNA loading in `rustzx-core` and fast tape loaders (Perform RET)
     pub fn pop_pc_from_stack(&mut self, bus: &mut impl Z80Bus) {
